@@ -41,10 +41,11 @@ func GetTimer(t time.Duration) *time.Timer {
 
 func ReleaseTimer(timer *time.Timer) {
 	if !timer.Stop() {
-		select {
-		case <-timer.C:
-		default:
-		}
+		// The timer has expired. If its value was not received yet,
+		// the send to timer.C may still be on its way (a non-blocking
+		// receive here cannot rule that out), and the next user of
+		// this timer would see a stale tick. Don't reuse it.
+		return
 	}
 	timerPool.Put(timer)
 }
